@@ -484,6 +484,12 @@ var c18Malformed = []struct {
 	{"name_is_keyword", `{"name":"then","when":"true","then":["F.I64 = 1"]}`},
 	{"ruleset_with_bad_rule", `[{"name":"A","when":"true","then":["F.I64 = 1"]},{"name":"B","when":{"nope":[1,2]},"then":["F.I64 = 1"]}]`},
 	{"ruleset_not_objects", `[1,2]`},
+	{"ruleset_null_element", `[null]`},
+	{"ruleset_null_after_rule", `[{"name":"A","when":"true","then":["F.I64 = 1"]},null]`},
+	{"rule_is_null", `null`},
+	{"then_element_null", `{"name":"R","when":"true","then":[null]}`},
+	{"operand_object_null_value", `{"name":"R","when":{"eq":null},"then":["F.I64 = 1"]}`},
+	{"ruleset_duplicate_names", `[{"name":"A","when":"true","then":["F.I64 = 1"]},{"name":"A","when":"false","then":["F.I64 = 2"]}]`},
 	{"ruleset_later_rule_without_name", `[{"name":"A","when":"true","then":["F.I64 = 1"]},{"when":"true","then":["F.I64 = 2"]}]`},
 	{"ruleset_later_rule_without_when", `[{"name":"A","when":"true","then":["F.I64 = 1"]},{"name":"B","then":["F.I64 = 2"]}]`},
 	{"ruleset_later_rule_without_then", `[{"name":"A","when":"true","then":["F.I64 = 1"]},{"name":"B","when":"true"}]`},
@@ -494,7 +500,7 @@ var c18Malformed = []struct {
 }
 
 func TestC18(t *testing.T) {
-	col := stats.New("C18", "a typed expression tree (condition of depth 1-4 over all 15 operators, negation, fact paths of every addressing form, calls, constants incl. hostile strings) and 1-3 actions are generated and converted into the JSON rule format with drawn choices per node: operator objects (chains of one operator flattened into n-ary objects of arity 2-4 = left fold), unary not over operator objects, plain-string operands (raw GRL of an atom), JSON numbers and booleans, obj/const wrappers, call objects, set objects, plain-string actions with/without semicolon; single-rule and rule-set form (the rule among 0-3 other, never satisfied rules that state or omit description and salience on their own); description and salience drawn. Oracle: the translator's output is accepted by the builder with the JSON's name, description and salience; its FetchMatchingRules membership and the facts left by one firing equal those of the same tree rendered by the harness's own printer with explicit grouping and own string quoting, built through the same engine (so evaluator defects cannot leak in), on a generated fact state; where the two agree, the condition's value is also compared with the reference interpreter's; 44 fixed malformed inputs (empty, blank, not JSON, unknown operator, arity 0, and/or arity <2, two keys, missing/empty name, missing/null when/then, wrong JSON types, bad salience, bad set/call arity, non-identifier name, truncated JSON ...) must end in an error from the translator or the builder, never a panic or a usable rule. Non-trivial: a lower-precedence operator nested in a higher one, or a string constant that needs escaping. Distinct by the JSON text.",
+	col := stats.New("C18", "a typed expression tree (condition of depth 1-4 over all 15 operators, negation, fact paths of every addressing form, calls, constants incl. hostile strings) and 1-3 actions are generated and converted into the JSON rule format with drawn choices per node: operator objects (chains of one operator flattened into n-ary objects of arity 2-4 = left fold), unary not over operator objects, plain-string operands (raw GRL of an atom), JSON numbers and booleans, obj/const wrappers, call objects, set objects, plain-string actions with/without semicolon; single-rule and rule-set form (the rule among 0-3 other, never satisfied rules that state or omit description and salience on their own); description and salience drawn. Oracle: the translator's output is accepted by the builder with the JSON's name, description and salience; its FetchMatchingRules membership and the facts left by one firing equal those of the same tree rendered by the harness's own printer with explicit grouping and own string quoting, built through the same engine (so evaluator defects cannot leak in), on a generated fact state; where the two agree, the condition's value is also compared with the reference interpreter's; 50 fixed malformed inputs (empty, blank, not JSON, unknown operator, arity 0, and/or arity <2, two keys, missing/empty name, missing/null when/then, wrong JSON types, bad salience, bad set/call arity, non-identifier name, truncated JSON ...) must end in an error from the translator or the builder, never a panic or a usable rule. Non-trivial: a lower-precedence operator nested in a higher one, or a string constant that needs escaping. Distinct by the JSON text.",
 		"plain-string operands are raw GRL by documentation: the generator only puts atoms there",
 		"arity 1 is only used for unary not over an operator object (the one unary form the repository defines)")
 	defer col.Flush()
@@ -558,8 +564,19 @@ func TestC18(t *testing.T) {
 			jr["salience"] = sal
 		}
 		var then []interface{}
-		for _, s := range thens {
-			then = append(then, conv.then(s))
+		for i := 0; i < len(thens); i++ {
+			// two consecutive statements may share one plain-string action (with or without a closing semicolon)
+			if i+1 < len(thens) && rapid.IntRange(0, 4).Draw(rt, "two_statements_in_one_string") == 0 {
+				joined := gast.StmtString(thens[i]) + rapid.SampledFrom([]string{"; ", ";", " ; "}).Draw(rt, "stmt_sep") + gast.StmtString(thens[i+1])
+				if rapid.Bool().Draw(rt, "joined_semicolon") {
+					joined += ";"
+				}
+				then = append(then, joined)
+				conv.features["plain_then_with_two_statements"]++
+				i++
+				continue
+			}
+			then = append(then, conv.then(thens[i]))
 		}
 		jr["then"] = then
 		var doc interface{} = jr
